@@ -16,7 +16,7 @@ pub fn def() -> PropDef {
         streams,
         run,
         floors,
-        rule: "each input is decoded through SliceReader and three contract-checking readers (borrowing, owning, non-contiguous); every reader call is logged with the octets remaining; unchecked requests (u8/u16/u32/u64/skip/subreader) beyond what remains are breaches; results (and, on acceptance, final position) must agree across readers. Inputs: hostile mutations, every truncation of the corpus, every attribute x payload length 0..40 through the message path, and every public per-type decoder driven directly with payload lengths 0..40. Distinct = distinct (entry point, input) pairs; non-trivial = the contract reader served at least one unchecked request.",
+        rule: "each input is decoded through SliceReader and three contract-checking readers (borrowing, owning, non-contiguous); every reader call is logged with the octets remaining; unchecked requests (u8/u16/u32/u64/skip/subreader) beyond what remains are breaches; results (and, on acceptance, final position) must agree across readers. Inputs: hostile mutations, every truncation of the corpus, every attribute x payload length 0..40 through the message path, and every public per-type decoder driven directly with payload lengths 0..40. Distinct = distinct (entry point, input) pairs; non-trivial = the contract reader served at least one unchecked request. Also: top-of-range inputs (over-long length fields behind 64 KiB of valid records), and crafted hidden values that put the per-type decoders inside reveal on both sides of their guards, with reveal's result compared with the per-type decoder over the same decrypted payload through the contract readers.",
     }
 }
 
